@@ -167,6 +167,12 @@ def run_spec(spec, wd):
     after = before + app
     ok_states = [norm(after)] + ([norm(before)] if base is not None else [])
     res = {"images": 0, "accepted": 0, "violations": [], "ops": len(log), "bytes": sum(len(o[2]) for o in log)}
+    nocrc = {}
+    if spec.get("ref") is not None:
+        from mc.checks import c10 as _c10
+
+        if _c10.ref_layout_cases()[spec["ref"]]["label"].endswith("-header-nocrc"):
+            nocrc = {"base": "packed-header-without-crc"}
     seen = set()
     for label, img in crash_images(base or b"", log, window=2):
         k = digest(img)
@@ -193,8 +199,8 @@ def run_spec(spec, wd):
                 if val not in ok_states:
                     what = f"{who} accepts the image after {label} with members {[n for n, _ in val]}" + (
                         " (names right, bytes wrong)" if [n for n, _ in val] in [[n for n, _ in s] for s in ok_states] else "")
-                    res["violations"].append(({"symptom": "torn-image-accepted", "reader": who, "crash": label[0], "mode": "append" if base is not None else "create",
-                                               "header": header}, what, list(label)))
+                    res["violations"].append((dict({"symptom": "torn-image-accepted", "reader": who, "crash": label[0], "mode": "append" if base is not None else "create",
+                                                    "header": header}, **nocrc), what, list(label)))
     if final and logical(final, pw)["py"][:2] != ("ok", norm(after)):
         res["violations"].append(({"symptom": "complete-session-unreadable", "mode": "append" if base is not None else "create"}, "the completed session does not read back as its members", ["complete"]))
     return res
@@ -234,6 +240,13 @@ def specs(tier):
                 out.append({"sessions": [(mk, "COPY", "raw")], "target": target, "ref": r})
                 if tier != "quick":
                     out.append({"sessions": [(mk, "LZMA2", "encoded")], "target": target, "ref": r})
+        # appends onto archives whose packed header carries no CRC: the new data lands where the old header was, and
+        # nothing but that header's own decoding stands between a torn image and acceptance
+        for r in range(nref):
+            if c10.ref_layout_cases()[r]["label"].endswith("-header-nocrc"):
+                for mk in ("hdrlike", "tiny", "str1"):
+                    for c, h in (("COPY", "raw"), ("LZMA2", "encoded"), ("X86+LZMA2", "encoded")):
+                        out.append({"sessions": [(mk, c, h)], "target": target, "ref": r})
         if tier != "quick":
             for a in ("str1", "tree"):
                 for b in ("str2", "dir", "zero"):
